@@ -5,6 +5,8 @@
 // every document in turn: opened through each of new_replica / open_replica / load_replica_info the removal must be refused with nothing
 // changed; after closing, removal erases exactly that document (entries, heads, peers, policy, capability, content hashes) and every
 // other document is unchanged; late peer registration / policy for the removed document fails; re-creation yields an empty document.
+// Second part: three neighbouring documents without entries but with policy and peers, each removed and re-created. Third part: after every step of
+// an 8-step history (inserts, overwrites, prefix deletions, removal) over two documents the reported content hashes are exactly the hashes of the held entries.
 #[cfg(test)]
 mod verif_rp_c16_remove {
     use super::*;
@@ -85,5 +87,64 @@ mod verif_rp_c16_remove {
             store.register_useful_peer(ns, [victim as u8; 32]).unwrap();
             store.set_download_policy(&ns, DownloadPolicy::NothingExcept(vec![FilterKind::Prefix(vec![victim as u8].into())])).unwrap();
         }
+    }
+
+    /// A document without any entry that has a download policy and useful peers: removal erases policy and peers, a re-created document starts
+    /// with the default policy and no peers; its byte-order neighbours (ids ..fe, ..ff, next prefix) are untouched.
+    #[tokio::test]
+    async fn removing_an_entry_less_document_erases_its_settings() {
+        let mut store = Store::memory();
+        let mut ids = vec![];
+        // three neighbouring read-only documents; the middle one ends in 0xFF
+        for last in [[0x07u8, 0xfe], [0x07, 0xff], [0x08, 0x00]] {
+            let mut id = [0x42u8; 32]; id[30] = last[0]; id[31] = last[1];
+            let ns = NamespaceId::from(&id);
+            store.import_namespace(Capability::Read(ns)).unwrap();
+            store.register_useful_peer(ns, [last[1]; 32]).unwrap();
+            store.set_download_policy(&ns, DownloadPolicy::NothingExcept(vec![FilterKind::Exact(vec![last[1]].into())])).unwrap();
+            ids.push(ns);
+        }
+        for victim in 0..3 {
+            let before: Vec<Snapshot> = ids.iter().map(|d| snapshot(&mut store, *d)).collect();
+            store.remove_replica(&ids[victim]).unwrap();
+            for (i, d) in ids.iter().enumerate() {
+                let now = snapshot(&mut store, *d);
+                if i == victim { assert_eq!(now, (vec![], vec![], None, format!("{:?}", DownloadPolicy::default()), false), "WITNESS remains of a removed document that held no entries (id ..{:02x}{:02x})", d.as_bytes()[30], d.as_bytes()[31]); }
+                else { assert_eq!(now, before[i], "WITNESS removing entry-less document {victim} changed document {i}"); }
+            }
+            store.import_namespace(Capability::Read(ids[victim])).unwrap();
+            let fresh = snapshot(&mut store, ids[victim]);
+            assert_eq!((fresh.2.clone(), fresh.3.clone()), (None, format!("{:?}", DownloadPolicy::default())), "WITNESS a re-created entry-less document inherits peers or policy");
+            store.register_useful_peer(ids[victim], [victim as u8 + 1; 32]).unwrap();
+            store.set_download_policy(&ids[victim], DownloadPolicy::NothingExcept(vec![FilterKind::Exact(vec![victim as u8].into())])).unwrap();
+        }
+    }
+
+    /// "At all times the set of content hashes the store reports is exactly the set of hashes of entries currently held": after every step of a
+    /// history with overwrites, prefix deletions (markers are entries, too) and a removal, over two documents.
+    #[tokio::test]
+    async fn content_hashes_are_exactly_the_hashes_of_the_held_entries() {
+        let mut rng = rand::rng();
+        let author = Author::new(&mut rng);
+        let docs = [NamespaceSecret::new(&mut rng), NamespaceSecret::new(&mut rng)];
+        let mut store = Store::memory();
+        for d in &docs { drop(store.new_replica(d.clone()).unwrap()); store.close_replica(d.id()); }
+        store.import_author(author.clone()).unwrap();
+        let check = |store: &mut Store, step: &str| {
+            let mut held: Vec<Hash> = vec![];
+            for d in &docs { if let Ok(it) = store.get_many(d.id(), Query::all().include_empty()) { for e in it { held.push(e.unwrap().content_hash()); } } }
+            held.sort();
+            let got = hashes(store);
+            assert_eq!(got, held, "WITNESS after {step}: reported content hashes {} differ from the hashes of the {} held entries", got.len(), held.len());
+        };
+        for (i, (d, key, del)) in [(0usize, &b"a/1"[..], false), (0, b"a/2", false), (1, b"a/1", false), (0, b"a/1", false), (0, b"a/", true), (1, b"b", false), (1, b"", true), (0, b"c", false)].into_iter().enumerate() {
+            let mut r = store.open_replica(&docs[d].id()).unwrap();
+            if del { r.delete_prefix(key, &author).await.unwrap(); } else { r.hash_and_insert(key, &author, format!("v{i}")).await.unwrap(); }
+            drop(r);
+            store.close_replica(docs[d].id());
+            check(&mut store, &format!("step {i} ({} {:?} in document {d})", if del { "delete_prefix" } else { "insert" }, String::from_utf8_lossy(key)));
+        }
+        store.remove_replica(&docs[1].id()).unwrap();
+        check(&mut store, "removing document 1");
     }
 }
